@@ -51,6 +51,7 @@ def run(prog, chk):
     cb = [f for f in prog.functions.values() if f.file.endswith("src/Callback.cpp")]
     _erase_rule(prog, chk)
     dirty_cleared_after_sweep(prog, chk, "C12.i")
+    one_connection_per_disconnect(prog, chk, "C12.j")
     if len(cb) < 6:
         raise AnalysisBroken("Callback.cpp: only %d functions" % len(cb))
 
@@ -460,3 +461,41 @@ def dirty_cleared_after_sweep(prog, chk, rid):
                         "`disconnected` ones never removed" % f.r(st_.node), evals=len(atoms) + 1)
     if not n:
         raise AnalysisBroken("no store `dirty = false` found in Callback.cpp")
+
+
+def one_connection_per_disconnect(prog, chk, rid):
+    """A connection is one entry in the emitter's slot list and one record in the listener's list.  disconnect() takes the pair apart:
+    whatever it does to a matching entry (unlink it, or mark it while an emission runs), it does to ONE entry on either side - the same
+    pair may be connected several times, and the other connections stay."""
+    chk.rule(rid, "CNT: in Callback::disconnect every action on a matching entry (unlinking it or marking it disconnected) leaves the search "
+                  "loop: one call takes exactly one entry out on the emitter side and one record on the listener side", floor=2)
+    fs = [g for g in prog.functions.values() if g.name == "Callback::disconnect" and g.blocks and g.file.endswith("src/Callback.cpp")]
+    if not fs:
+        raise AnalysisBroken("Callback::disconnect not found")
+    f = fs[0]
+    def in_loop_stmt(x):
+        p_ = f.up(x)
+        while p_ is not None:
+            if f.nodes[p_]["k"] in ("ForStmt", "WhileStmt", "DoStmt", "CXXForRangeStmt"):
+                return True
+            p_ = f.up(p_)
+        return False
+    acts = []
+    for c in q.calls(f):
+        if (f.nodes[c].get("callee") or "").endswith("::remove") and f.node_pos(c) is not None and in_loop_stmt(c):
+            acts.append((c, "unlinks `%s`" % q.no_casts(f.r(c))[:40]))
+    for st_ in q.stores(f):
+        if re.search(r"(->|\.)state$", q.no_casts(f.r(st_.lhs))) and st_.rhs is not None and "disconnected" in f.r(st_.rhs) and in_loop_stmt(st_.node):
+            acts.append((st_.node, "marks `%s` disconnected" % q.no_casts(f.r(st_.lhs))[:40]))
+    if len(acts) < 2:
+        raise AnalysisBroken("Callback::disconnect: %d actions on matching entries found, at least 2 expected" % len(acts))
+    for node, what in acts:
+        pos = f.node_pos(node)
+        again = f.find_path(pos, {pos})       # can this action run a second time within one call?
+        if again is None:
+            chk.ok(rid, f, "the loop is left after it %s" % what, f.where(node), "no path from the action back to itself", evals=2)
+        else:
+            chk.bad(rid, f, "disconnect-continues-after-match", f.where(node),
+                    "after it %s the search goes on (lines %s) and treats further matching entries the same way, while the other side gives up "
+                    "exactly one record: a pair connected twice loses both connections on one side and one on the other - the remaining "
+                    "connection is never invoked again" % (what, f.path_lines(again)[:8]), f.path_lines(again), evals=2)
